@@ -195,6 +195,10 @@ impl SymbolMap {
         loc: FileRange,
     ) -> Option<impl Iterator<Item = (FileRange, SymbolId)> + '_> {
         let map = self.pos_to_symbol_map.get(&loc.file)?;
+        // nothing lies in an empty range (and iset panics on an empty query interval)
+        if loc.range.is_empty() {
+            return None;
+        }
         Some(map.iter(loc.range).map(move |(range, id)| {
             (
                 FileRange::new(loc.file, TextRange::new(range.start, range.end)),
